@@ -709,6 +709,9 @@ func (fr *Frame) resolveLocal(name string, at *ssa.BasicBlock, st *State) (Term,
 						// the variable lives in memory (its address is taken): the value noted at an
 						// assignment is stale after later stores through the address
 						consider(cand{d, i, al, true})
+					} else if fv := fr.freeVarOf(ins); fv != nil && !ins.IsAddr {
+						// a captured variable lives in its cell: read it in the state asked for
+						consider(cand{d, i, fv, true})
 					} else {
 						consider(cand{d, i, ins.X, ins.IsAddr})
 					}
@@ -736,6 +739,27 @@ func (fr *Frame) resolveLocal(name string, at *ssa.BasicBlock, st *State) (Term,
 		return g.load(st, t.S, p.Elem()), goTy(p.Elem()), true
 	}
 	return t, goTy(best.val.Type()), true
+}
+
+// freeVarOf returns the captured-variable cell a debug reference names, if the variable is captured by
+// reference by this function literal.
+func (fr *Frame) freeVarOf(d *ssa.DebugRef) *ssa.FreeVar {
+	obj := d.Object()
+	if obj == nil {
+		return nil
+	}
+	for _, fv := range fr.fn.FreeVars {
+		if fv.Name() != obj.Name() {
+			continue
+		}
+		if _, ok := fv.Type().Underlying().(*types.Pointer); !ok {
+			continue
+		}
+		if fv.Pos() == obj.Pos() || !fv.Pos().IsValid() {
+			return fv
+		}
+	}
+	return nil
 }
 
 // allocOfVar returns the allocation that holds the source variable a debug reference names, if the variable
